@@ -1,4 +1,11 @@
 var $min = Math.min;
+// $shiftCount checks a shift count of signed type, which must not be negative.
+var $shiftCount = y => {
+    if (y < 0) {
+        $throwRuntimeError("negative shift amount");
+    }
+    return y;
+};
 var $mod = (x, y) => { return x % y; };
 var $parseInt = parseInt;
 var $parseFloat = f => {
@@ -46,6 +53,9 @@ var $flatten64ToFloat32 = x => {
 };
 
 var $shiftLeft64 = (x, y) => {
+    if (y < 0) {
+        $throwRuntimeError("negative shift amount");
+    }
     if (y === 0) {
         return x;
     }
@@ -59,6 +69,9 @@ var $shiftLeft64 = (x, y) => {
 };
 
 var $shiftRightInt64 = (x, y) => {
+    if (y < 0) {
+        $throwRuntimeError("negative shift amount");
+    }
     if (y === 0) {
         return x;
     }
@@ -75,6 +88,9 @@ var $shiftRightInt64 = (x, y) => {
 };
 
 var $shiftRightUint64 = (x, y) => {
+    if (y < 0) {
+        $throwRuntimeError("negative shift amount");
+    }
     if (y === 0) {
         return x;
     }
